@@ -13,7 +13,7 @@
 # limitations under the License.
 
 import time
-from io import TextIOWrapper
+from io import StringIO, TextIOWrapper
 from subprocess import Popen, PIPE
 
 import pysmt.smtlib.commands as smtcmd
@@ -127,9 +127,42 @@ class SmtLibSolver(Solver): # TODO this class is defined twice in pysmt. Here an
         self._debug("Read: %s", res)
         return res
 
+    def _read_sexpr_answer(self):
+        """Reads one complete s-expression from the STDOUT pipe.
+
+        If the answer does not start with a parenthesis, it is the line.
+        """
+        res = []
+        depth = 0
+        quote = None
+        while True:
+            c = self.solver_stdout.read(1)
+            if c == "":
+                break
+            res.append(c)
+            if quote is not None:
+                if c == quote:
+                    quote = None
+            elif c in ('"', '|'):
+                quote = c
+            elif c == "(":
+                depth += 1
+            elif c == ")":
+                depth -= 1
+                if depth <= 0:
+                    break
+            elif depth == 0 and not c.isspace():
+                res.append(self.solver_stdout.readline())
+                break
+        return "".join(res)
+
     def _get_value_answer(self):
         """Reads and parses an assignment from the STDOUT pipe"""
-        lst = self.parser.get_assignment_list(self.solver_stdout)
+        # The whole answer is read before it is parsed: when the parser
+        # gives up in the middle (e.g., on an '(error ...)' answer), the
+        # rest must not be taken for the answer to the next command
+        answer = self._read_sexpr_answer()
+        lst = self.parser.get_assignment_list(StringIO(answer))
         self._debug("Read: %s", lst)
         return lst
 
